@@ -60,7 +60,7 @@ def _case(draw, tier, force_pre_entry=False):
     if form in ("selfsignal", "chat") or L["acc"]:
         L["nullable"] = False
     if form == "selfsignal":
-        L.update({"k": 2, "acc": False, "nested": False, "limit_input": L["limit_input"]})
+        L.update({"k": draw(st.sampled_from([2, 2, 3, 4])), "acc": False, "nested": False, "limit_input": L["limit_input"]})
     if form == "waitlast":
         L.update({"k": draw(st.integers(3, 4)), "nested": False})
     if form == "chat":
